@@ -1,15 +1,18 @@
 #!/bin/bash
-# usage: seed_eval.sh <seed-id> <prop> [more props...]   -- applies seeded/<id>/patch.diff to /repo, runs the checks, reverts
+# usage: seed_eval.sh <seed-id> <prop> [more props...]
+# Runs the checks against a scratch worktree of /repo HEAD with seeded/<id>/patch.diff applied (VERIF_REPO points the
+# engine at it), so that /repo itself stays untouched while other checks run. Equivalent to:
+#   git -C /repo apply seeded/<id>/patch.diff; ./check <prop>; git -C /repo checkout -- .
 id=$1; shift
-cd /verif
-git -C /repo diff --quiet || { echo "/repo not clean"; exit 2; }
-git -C /repo apply seeded/$id/patch.diff || { echo "$id: patch failed"; exit 2; }
-res=""
+wt=/tmp/se_$id
+rm -rf $wt; git -C /repo worktree prune; git -C /repo worktree add -q --detach $wt HEAD || exit 2
+git -C $wt apply /verif/seeded/$id/patch.diff || { echo "$id: patch failed"; git -C /repo worktree remove --force $wt; exit 2; }
+cd /verif; res=""
 for p in "$@"; do
-  out=$(./check $p --no-evidence 2>&1); rc=$?
+  out=$(VERIF_REPO=$wt ./check $p --no-evidence 2>&1); rc=$?
   v=$(echo "$out" | grep -c "^VIOLATION")
   failing=$(echo "$out" | grep -E " (violation|violation-unreplayed|tool-error) " | awk '{print $3":"$4}' | tr '\n' ' ')
   res="$res $p:rc=$rc:viol=$v[$failing]"
 done
-git -C /repo checkout -- .
+git -C /repo worktree remove --force $wt
 echo "$id ->$res"
